@@ -37,7 +37,7 @@ func init() {
 		Run: ruleClientFinishOrder,
 	})
 	register(&Rule{
-		Name: "settings-copy-complete", Props: []string{"C18", "C03", "C04"}, Engine: "AST", Floor: 12,
+		Name: "settings-copy-complete", Props: []string{"C18", "C03", "C04", "C05"}, Engine: "AST", Floor: 12,
 		Doc: "Settings.CopyTo and HeaderField.CopyTo copy every field, whole: the received SETTINGS values (and presence markers) reach the connection's copy, and an HPACK dynamic-table entry is the field that was inserted (name, value, sensitivity)",
 		Run: ruleSettingsCopy,
 	})
@@ -540,6 +540,13 @@ func ruleSettingsCopy(p *Prog, r *Out) {
 	// HPACK dynamic table's insert and lookup both go through CopyTo
 	for _, tname := range []string{"Settings", "HeaderField"} {
 		ruleCopyComplete(p, r, tname)
+	}
+	// the frame types' CopyTo are part of the exported codec (C05): a copy of a
+	// frame has to serialise to the same octets
+	for _, tname := range []string{"Headers", "Data", "Continuation", "Priority", "RstStream", "GoAway", "Ping", "WindowUpdate"} {
+		if p.decl("(*"+tname+").CopyTo") != nil {
+			ruleCopyComplete(p, r, tname)
+		}
 	}
 }
 
